@@ -129,8 +129,13 @@ def glit(v, style=None):
         sep = style.listsep() if style else ", "
         return "{ " + sep.join("%s: %s" % (gstr(k, style), glit(x, style)) for k, x in v.items()) + " }"
     if isinstance(v, list):
+        if style:
+            style.push("list")
         sep = style.listsep() if style else ", "
-        return "[" + sep.join(glit(x, style) for x in v) + "]"
+        r = "[" + sep.join(glit(x, style) for x in v) + "]"
+        if style:
+            style.pop()
+        return r
     if v is None:
         return style.kw("null") if style else "null"
     if v is True:
@@ -176,10 +181,8 @@ class Style:
     def neg(self):           # prefix / operator negation spelling
         return "not "
 
-    def opneg(self, op):
-        if op == "==":
-            return "!="
-        return "!" + op if op != "in" else "not in"
+    def opnot(self):         # operator-level negation prefix (`not in`, `!exists`, ...)
+        return "not "
 
     def orj(self):
         return " or "
@@ -205,6 +208,18 @@ class Style:
     def this_prefix(self):
         return False
 
+    def lbr(self):           # filter brackets
+        return "[ "
+
+    def rbr(self):
+        return " ]"
+
+    def push(self, ctx):
+        pass
+
+    def pop(self):
+        pass
+
 
 CANON = Style()
 
@@ -221,7 +236,10 @@ def pquery(q, style=CANON, depth=0):
         t = p[0]
         if t == "key":
             s = gkey(p[1], style)
-            out.append(s if i == 0 else "." + s)
+            if i == 0 and style.this_prefix():
+                out.append(style.kw("this") + "." + s)
+            else:
+                out.append(s if i == 0 else "." + s)
         elif t == "keyidx":
             out.append("[%s]" % gstr(p[1], style))
         elif t == "var":
@@ -237,7 +255,9 @@ def pquery(q, style=CANON, depth=0):
         elif t == "dotidx":
             out.append(".%d" % p[1])
         elif t == "filter":
-            out.append("[ " + pcnf_inline(p[1], style, depth) + " ]")
+            style.push("filter")
+            out.append(style.lbr() + pcnf_inline(p[1], style, depth) + style.rbr())
+            style.pop()
         elif t == "keysfilter":
             out.append("[ keys %s %s ]" % (p[1], prhs(p[2], style, depth)))
         elif t == "raw":
@@ -262,7 +282,7 @@ def prhs(r, style=CANON, depth=0):
     raise ValueError(r)
 
 
-def pop(op, opneg, style):
+def popr(op, opneg, style):
     base = op
     if op in ("in", "exists", "empty") or op.startswith("is_"):
         base = style.kw(op)
@@ -272,8 +292,7 @@ def pop(op, opneg, style):
         return "!="
     if op in ("<", "<=", ">", ">="):
         raise ValueError("no operator-level negation for " + op)
-    n = style.neg()
-    return n + base if n.endswith(" ") else n + base
+    return style.opnot() + base
 
 
 def pclause(c, style=CANON, depth=0):
@@ -285,7 +304,7 @@ def pclause(c, style=CANON, depth=0):
         if c.get("some"):
             s += style.kw("some") + " "
         s += pquery(c["q"], style, depth)
-        s += " " + pop(c["op"], c.get("opneg", False), style)
+        s += " " + popr(c["op"], c.get("opneg", False), style)
         if c.get("rhs") is not None:
             s += " " + prhs(c["rhs"], style, depth)
         if c.get("msg"):
@@ -307,18 +326,28 @@ def pclause(c, style=CANON, depth=0):
             s += style.kw("some") + " "
         s += pquery(c["q"], style, depth)
         if c.get("not_empty"):
-            s += " " + style.neg().strip() + ("" if style.neg().strip() == "!" else " ") + style.kw("empty")
+            s += " " + style.opnot() + style.kw("empty")
+        style.push("block")
         s += " {" + style.eol() + pbody(c.get("lets", []), c["body"], style, depth + 1) + style.indent(depth) + "}"
+        style.pop()
         return s
     if t == "when":
+        style.push("when-cond")
         s = style.kw("when") + " " + pcnf_inline(c["cond"], style, depth)
+        style.pop()
+        style.push("when-body")
         s += " {" + style.eol() + pbody(c.get("lets", []), c["body"], style, depth + 1) + style.indent(depth) + "}"
+        style.pop()
         return s
     if t == "type":
         s = c["type"] + " "
         if c.get("cond"):
+            style.push("when-cond")
             s += style.kw("when") + " " + pcnf_inline(c["cond"], style, depth) + " "
+            style.pop()
+        style.push("type")
         s += "{" + style.eol() + pbody(c.get("lets", []), c["body"], style, depth + 1) + style.indent(depth) + "}"
+        style.pop()
         return s
     if t == "raw":
         return c["text"]
@@ -371,19 +400,25 @@ def prule(r, style=CANON):
     if r.get("params"):
         s += "(" + ", ".join(r["params"]) + ")"
     if r.get("when"):
+        style.push("rule-when")
         s += " " + style.kw("when") + " " + pcnf_inline(r["when"], style, 0)
+        style.pop()
+    style.push("rule-body")
     s += " {" + style.eol() + pbody(r.get("lets", []), r["body"], style, 1) + "}" + style.eol()
+    style.pop()
     return s
 
 
 def pfile(f, style=CANON):
     out = []
+    style.push("file")
     for l in f.get("lets", []):
         out.append(plet(l, style, 0) + style.eol())
     for line in f.get("default", []) or []:
         out.append(pline(line, style, 0) + style.eol())
     for r in f.get("rules", []):
         out.append(prule(r, style))
+    style.pop()
     return "".join(out)
 
 
